@@ -96,6 +96,7 @@ func run(in, out, sumPath string, seed int64, nGate, nHash, perms, schemes int) 
 
 	// 1. every pair, every scheme, through the real validation functions
 	var acceptedIdx, otherIdx []int
+	accScheme := map[int][]int{} // pair -> schemes under which the real validation accepted it
 	for i := range pairs {
 		line := PairLine{Kind: "pair", ID: i, D: raws[i].D, M: raws[i].M}
 		acc, rej := false, false
@@ -107,6 +108,9 @@ func run(in, out, sumPath string, seed int64, nGate, nHash, perms, schemes int) 
 			line.Res = append(line.Res, r)
 			s.PairEvals++
 			acc = acc || r.Accepted
+			if r.Accepted {
+				accScheme[i] = append(accScheme[i], sc)
+			}
 			rej = rej || r.ResRej
 		}
 		if acc {
@@ -146,7 +150,11 @@ func run(in, out, sumPath string, seed int64, nGate, nHash, perms, schemes int) 
 		chosen = append(chosen, otherIdx[:rest]...)
 		sort.Ints(chosen)
 		for n, i := range chosen {
-			err := env.RunGate(i, &pairs[i], raws[i].D, raws[i].M, n%schemes, hashes, -1, func(l GateLine) error {
+			sc := n % schemes
+			if as := accScheme[i]; len(as) > 0 { // a scheme under which the direct call accepted: the gate is then decisive
+				sc = as[n%len(as)]
+			}
+			err := env.RunGate(i, &pairs[i], raws[i].D, raws[i].M, sc, hashes, -1, func(l GateLine) error {
 				s.GateSubmits++
 				if l.Accepted {
 					s.GateAccepted++
